@@ -537,3 +537,35 @@ Definition check_rename (e : edit) (a b : ast) : N := verdict (go_renaming e a) 
 Definition check_removal (a b : ast) : N := verdict ren_none (diff_removed a b) a b.
 (* the round trip restores the original program exactly *)
 Definition check_roundtrip (a c : ast) : N := if ast_eqb a c then 0%N else 3%N.
+
+(* ------------------------------------------------------------ several edits in one invocation *)
+
+(* refactor.go Refactor performs the renames of one request one after the
+   other, each on the Asts the earlier ones already modified (so a later edit
+   names a callable by its new name), then the removals.  The reference result
+   of the renames is the composition of the single reference renames, each
+   with the renaming Go chooses on the intermediate program. *)
+Fixpoint apply_edits (es : list edit) (a : ast) : option ast :=
+  match es with
+  | [] => Some a
+  | e :: r =>
+      let rho := go_renaming e a in
+      if ren_ok rho a then apply_edits r (rename_ast rho a) else None
+  end.
+
+(* the same composition read on the call tree *)
+Fixpoint apply_edits_tree (es : list edit) (a : ast) (t : tree) : tree :=
+  match es with
+  | [] => t
+  | e :: r =>
+      let rho := go_renaming e a in
+      apply_edits_tree r (rename_ast rho a) (rename_tree rho [] [] t)
+  end.
+
+(* b is a after the renames es and then (rm) the removal of elements nothing
+   refers to *)
+Definition check_combo (es : list edit) (rm : bool) (a b : ast) : N :=
+  match apply_edits es a with
+  | None => 1%N
+  | Some a' => if rm then check_removal a' b else if ast_eqb a' b then 0%N else 3%N
+  end.
